@@ -1,14 +1,16 @@
 #!/bin/bash
 # usage: tools/full_pass.sh quick|thorough [ids...]  — every claimed check on the current /repo tree, sequentially
+# (FP_TAG=<suffix> keeps the logs of a second pass running at the same time apart)
 tier=${1:-quick}; shift
 cd /verif || exit 2
 ids=${@:-$(python3 -c "import json; print(' '.join(c['property_id'] for c in json.load(open('MANIFEST.json'))['checks']))")}
 mkdir -p work
-log=work/full_pass_$tier.log; : > $log
+tag=${FP_TAG:-}
+log=work/full_pass_$tier$tag.log; : > $log
 for p in $ids; do
   s=$(date +%s)
-  ./check $p --tier $tier > work/fp_$p.out 2>&1; rc=$?
+  ./check $p --tier $tier > work/fp${tag}_$p.out 2>&1; rc=$?
   e=$(date +%s)
-  nv=$(grep -c '^VIOLATION' work/fp_$p.out); nk=$(grep -c '^KNOWN-FINDING' work/fp_$p.out)
+  nv=$(grep -c '^VIOLATION' work/fp${tag}_$p.out); nk=$(grep -c '^KNOWN-FINDING' work/fp${tag}_$p.out)
   echo "$p rc=$rc violations=$nv known=$nk secs=$((e-s))" | tee -a $log
 done
